@@ -47,6 +47,7 @@ package crypto
 //@   property C32
 //@   pure
 //@   ensures [hex] result == HexOf(seq(h))
+//@   ensures [hex-length] len(result) == 64 -- hex of 32 bytes (merged from the assumed contract in zz_contracts_c04_verif.go; C16: storage.writeWithdrawalClaim tests len(snap) != 64)
 
 //@ func HashFromString(src)
 //@   property C32
